@@ -2,8 +2,8 @@ package exec
 
 import (
 	"fmt"
-	"math"
 	"go/types"
+	"math"
 	"strings"
 
 	"golang.org/x/tools/go/ssa"
